@@ -296,30 +296,45 @@ func c12AS923(c *Ctx, bands *tables.Bands, cfg *tables.BandConfig, fam regBand, 
 		r.Unknown("R4.as923", id+"/GetRX1DataRateIndex", pos, "two parameters", fmt.Sprint(names))
 		return
 	}
+	// The accepted domain. The guard matcher reads `if p < a || p > b { return …, err }` statements; where the guards
+	// are written another way (a tagless switch, a helper) the domain is not read off the syntax but decided pointwise
+	// by evaluation: every point of the specified domain must yield the specified data rate, every point of a margin
+	// around it must be rejected with an error.
 	dom := guardDomain(c, fd, c.Prog.Pkg("band").TypesInfo)
+	recognised := true
 	for _, n := range names {
-		d := dom[n]
-		r.Check(d[0] != nil && d[1] != nil, "R4.as923", id+"/GetRX1DataRateIndex/guard("+n+")", pos, "parameter rejected below and above a constant before use", fmt.Sprintf("lower=%v upper=%v", d[0] != nil, d[1] != nil), true)
-		if d[0] == nil || d[1] == nil {
-			return
+		if d := dom[n]; d[0] == nil || d[1] == nil {
+			recognised = false
 		}
 	}
-	drD, offD := dom[names[0]], dom[names[1]]
-	r.Check(*drD[0] == fam.RX1DR.DRLo && *drD[1] == fam.RX1DR.DRHi, "R4.as923", id+"/GetRX1DataRateIndex/domain(dr)", pos, fmt.Sprintf("[%d,%d]", fam.RX1DR.DRLo, fam.RX1DR.DRHi), fmt.Sprintf("[%d,%d]", *drD[0], *drD[1]), true)
-	r.Check(*offD[0] == 0 && *offD[1] == len(fam.RX1DR.EffOffsets)-1, "R4.as923", id+"/GetRX1DataRateIndex/domain(offset)", pos, fmt.Sprintf("[0,%d]", len(fam.RX1DR.EffOffsets)-1), fmt.Sprintf("[%d,%d]", *offD[0], *offD[1]), true)
+	drLo, drHi, offLo, offHi := fam.RX1DR.DRLo, fam.RX1DR.DRHi, 0, len(fam.RX1DR.EffOffsets)-1
+	if recognised {
+		for _, n := range names {
+			r.OK("R4.as923", id+"/GetRX1DataRateIndex/guard("+n+")", pos, "parameter rejected below and above a constant before use", "lower=true upper=true", true)
+		}
+		drD, offD := dom[names[0]], dom[names[1]]
+		r.Check(*drD[0] == drLo && *drD[1] == drHi, "R4.as923", id+"/GetRX1DataRateIndex/domain(dr)", pos, fmt.Sprintf("[%d,%d]", drLo, drHi), fmt.Sprintf("[%d,%d]", *drD[0], *drD[1]), true)
+		r.Check(*offD[0] == offLo && *offD[1] == offHi, "R4.as923", id+"/GetRX1DataRateIndex/domain(offset)", pos, fmt.Sprintf("[0,%d]", offHi), fmt.Sprintf("[%d,%d]", *offD[0], *offD[1]), true)
+	}
 	floor := fam.RX1DR.FloorNoDw
 	if cfg.Dwell400 {
 		floor = fam.RX1DR.FloorDw400
 	}
-	for dr := *drD[0]; dr <= *drD[1]; dr++ {
-		for off := *offD[0]; off <= *offD[1]; off++ {
+	for dr := drLo - 2; dr <= drHi+2; dr++ {
+		for off := offLo - 2; off <= offHi+2; off++ {
+			inRange := dr >= drLo && dr <= drHi && off >= offLo && off <= offHi
+			if !inRange && recognised {
+				continue // the recognised guards already decide the margin
+			}
 			res, _, ok := bands.EvalMethod(cfg, "GetRX1DataRateIndex", map[string]tables.Value{names[0]: tables.Int{V: int64(dr)}, names[1]: tables.Int{V: int64(off)}})
 			key := fmt.Sprintf("%s/GetRX1DataRateIndex(dr=%d,off=%d)", id, dr, off)
 			if !ok || len(res) != 2 {
 				r.Unknown("R4.as923", key, pos, "function inside the evaluable subset", fmt.Sprint(bands.Ev.Diag))
 				continue
 			}
-			if off >= len(fam.RX1DR.EffOffsets) || off < 0 {
+			_, errNil := res[1].(tables.Nil)
+			if !inRange {
+				r.Check(!errNil, "R4.as923", key+"/rejected", pos, "an error (outside the specified domain)", fmt.Sprintf("%s, %s", tables.Show(res[0]), tables.Show(res[1])), true)
 				continue
 			}
 			want := dr - fam.RX1DR.EffOffsets[off]
@@ -330,7 +345,6 @@ func c12AS923(c *Ctx, bands *tables.Bands, cfg *tables.BandConfig, fam regBand, 
 				want = fam.RX1DR.Cap
 			}
 			got, okg := res[0].(tables.Int)
-			_, errNil := res[1].(tables.Nil)
 			r.Check(okg && errNil && int(got.V) == want && down[want], "R4.as923", key, pos, fmt.Sprintf("DR%d = min(%d,max(%d,%d-(%d))), nil", want, fam.RX1DR.Cap, floor, dr, fam.RX1DR.EffOffsets[off]), fmt.Sprintf("%s, %s", tables.Show(res[0]), tables.Show(res[1])), true)
 		}
 	}
